@@ -352,6 +352,13 @@ def run(ctx):
             notes.insert(0, "L1: %d histories of AddImport/AddVar on the real registry vs the model: %s; %d variables, "
                          "%d imports" % (l1["n"], l1["verdicts"], l1["stats"].get("vars", 0), l1["stats"].get("imports", 0)))
             evaluated += l1["evaluated"]
+            ctx.l1 = dict(histories=l1["n"], evaluated_in_coq=l1["evaluated"], verdicts=l1["verdicts"],
+                          variables=l1["stats"].get("vars", 0), imports=l1["stats"].get("imports", 0),
+                          scopes=l1["stats"].get("scopes", 0), seconds=l1["seconds"],
+                          generator="harness/cmd/vh/l1.go (l1Generate): seeded; 2-8 synthetic packages per history with "
+                                    "adversarial paths and names, 1-3 scopes of 1-5 variables over every type "
+                                    "constructor, colliding declared names, interleaved AddImport, three source "
+                                    "packages with different alias sets, with and without -pkg")
     else:  # mock-structure properties: the Coq checkers on the lifted programs
         need = spec["need"]
         for cr in cases:
@@ -678,6 +685,8 @@ def finish(ctx, spec, obligations, corr_breaks, failures, known_hits, listed, no
                             disagree=len(corr_breaks)),
         known_finding_hits={k: len(v) for k, v in known_hits.items()},
         notes=notes[:10])
+    if getattr(ctx, "l1", None):
+        coverage["l1_correspondence"] = ctx.l1
     C.write_evidence(pid, ctx.tier, ctx.seed, coverage, time.time() - ctx.t0, violations,
                      ["see trusted_base; the go/types front end and the Go runtime are not modelled"])
     return rc
